@@ -47,15 +47,11 @@ func (m *Machine) conv(tDst, tSrc types.Type, x value) value {
 				return strFromTerms(b)
 			}
 			// []rune
-			var out []byte
+			var out []*Term
 			for _, e := range s.a {
-				t := e.(*Term)
-				if !t.IsConst() {
-					m.unsupported("conversion of symbolic []rune to string")
-				}
-				out = utf8.AppendRune(out, rune(t.SConst()))
+				out = append(out, m.encodeRune(e.(*Term))...)
 			}
-			return mkStr(string(out))
+			return strFromTerms(out)
 		case *types.Array:
 			n := int(ut_dst.Len())
 			if len(s.a) < n {
@@ -134,6 +130,9 @@ func (m *Machine) conv(tDst, tSrc types.Type, x value) value {
 				case b.Info()&types.IsString != 0:
 					// string(rune)
 					if !t.IsConst() {
+						if t.sort == 32 {
+							return strFromTerms(m.encodeRune(t))
+						}
 						r := m.concreteIntT(t, tSrc, "rune to string conversion")
 						return mkStr(string(rune(r)))
 					}
@@ -290,3 +289,41 @@ func (m *Machine) freshVar(w Sort, what string) *Term {
 }
 
 var _ = ssa.Function{}
+
+// encodeRune returns the UTF-8 encoding of a (possibly symbolic) 32-bit rune,
+// forking on the encoding length exactly as utf8.AppendRune does.
+func (m *Machine) encodeRune(r *Term) []*Term {
+	tt := m.tt
+	if r.IsConst() {
+		bs := utf8.AppendRune(nil, rune(int32(r.val)))
+		out := make([]*Term, len(bs))
+		for i, b := range bs {
+			out[i] = tt.BV(8, uint64(b))
+		}
+		return out
+	}
+	if r.sort != 32 {
+		m.unsupported("rune encoding of a %d-bit term", int(r.sort))
+	}
+	lo8 := func(t *Term) *Term { return tt.Extract(t, 7, 0) }
+	shr := func(t *Term, n uint64) *Term { return tt.Bin(OpLShr, t, tt.BV(32, n)) }
+	cont := func(t *Term) *Term {
+		return lo8(tt.Bin(OpBOr, tt.Bin(OpBAnd, t, tt.BV(32, 0x3F)), tt.BV(32, 0x80)))
+	}
+	// compare as unsigned: negative runes are > MaxRune and become RuneError
+	if m.branch(tt.Cmp(OpULt, r, tt.BV(32, 0x80)), "utf8 encode: 1 byte") {
+		return []*Term{lo8(r)}
+	}
+	if m.branch(tt.Cmp(OpULt, r, tt.BV(32, 0x800)), "utf8 encode: 2 bytes") {
+		return []*Term{lo8(tt.Bin(OpBOr, shr(r, 6), tt.BV(32, 0xC0))), cont(r)}
+	}
+	bad := tt.Or(tt.Cmp(OpULt, tt.BV(32, 0x10FFFF), r),
+		tt.And(tt.Cmp(OpULe, tt.BV(32, 0xD800), r), tt.Cmp(OpULe, r, tt.BV(32, 0xDFFF))))
+	if m.branch(bad, "utf8 encode: invalid rune") {
+		return []*Term{tt.BV(8, 0xEF), tt.BV(8, 0xBF), tt.BV(8, 0xBD)}
+	}
+	if m.branch(tt.Cmp(OpULt, r, tt.BV(32, 0x10000)), "utf8 encode: 3 bytes") {
+		return []*Term{lo8(tt.Bin(OpBOr, shr(r, 12), tt.BV(32, 0xE0))), cont(shr(r, 6)), cont(r)}
+	}
+	return []*Term{lo8(tt.Bin(OpBOr, shr(r, 18), tt.BV(32, 0xF0))), cont(shr(r, 12)), cont(shr(r, 6)), cont(r)}
+}
